@@ -16,7 +16,7 @@ SPEC = {
     "modules": ["HC.Props.C06"],
     "extracted": ["Guards", "Consts", "H11Tables"],
     "technique": "Lean 4 invariants over all op sequences of an executable model of H11Protocol composed with the h11 connection-state machine (tables extracted from the installed library): a live stream is never overwritten, recycle iff both sides DONE and not terminated, close announced, nothing served after Closed; tied by op-by-op differential execution against the real H11Protocol with library taps, plus end-to-end pipelines on both workers",
-    "level_text": "Proved in Lean for every sequence of library events, application sends and closes (any pipeline length, any interleaving, every keep_alive_max_requests): a new request is only ever accepted when no stream is live (so requests are served strictly one at a time and a later request's bytes cannot reach an earlier instance, the parser being parked between them); the connection is recycled exactly when request and response are both complete, neither side asked to close and shutdown has not begun - otherwise Closed is sent and no further request is accepted; the response head announces close whenever the cause is known when the head is sent (client Connection: close, HTTP/1.0, per-connection maximum reached - extracted comparator -, server-generated error responses); once either side asked to close - the client, the request maximum, or the APPLICATION with its own `connection: close` response header, which HTTPStream hands to h11 unchanged (extracted) - h11's keep-alive flag is off for good and no later stream end recycles the connection (asked_to_close_never_reused, over arbitrary further ops); `request_complete` only ever refers to the request in progress (reset at each Request, extracted), so a message that goes wrong INSIDE its body is never ignored, on a reused connection as on a fresh one: Closed is sent, preceded by the hinted error response with `connection: close` while h11's writer is IDLE / SEND_RESPONSE (malformed_body_closes).  Tie: a deterministic corpus (reused connection + malformed chunk / truncated body / garbage head in every segmentation class and application timing; application-requested close followed by further requests) and thousands of generated pipelines (1-6 requests; content-length, chunked, HEAD, Expect, HTTP/1.0, close, malformed / aborted messages at any position, application-requested close; every segmentation class; applications answering before/while/after/never reading the body, crashing at every point) driven through the real H11Protocol with taps on h11.Connection and compared with the model after every op (outputs, h11 our/their state, reader parked?, current stream, request counter); end-to-end on both workers with an independent client parser.",
+    "level_text": "Proved in Lean for every sequence of library events, application sends and closes (any pipeline length, any interleaving, every keep_alive_max_requests): a new request is only ever accepted when no stream is live (so requests are served strictly one at a time and a later request's bytes cannot reach an earlier instance, the parser being parked between them); the connection is recycled exactly when request and response are both complete, neither side asked to close and shutdown has not begun - otherwise Closed is sent and no further request is accepted; the response head announces close whenever the cause is known when the head is sent (client Connection: close, HTTP/1.0, per-connection maximum reached - extracted comparator -, server-generated error responses); once either side asked to close - the client, the request maximum, or the APPLICATION with its own `connection: close` response header, which HTTPStream hands to h11 unchanged (extracted) - h11's keep-alive flag is off for good and no later stream end recycles the connection (asked_to_close_never_reused, over arbitrary further ops); `request_complete` only ever refers to the request in progress (reset at each Request, extracted), so a message that goes wrong INSIDE its body is never ignored, on a reused connection as on a fresh one: Closed is sent, preceded by the hinted error response with `connection: close` while h11's writer is IDLE / SEND_RESPONSE (malformed_body_closes); the guard under which _handle_events ignores a RemoteProtocolError is extracted as a function of its atoms (stream live, request_complete, h11's two states) and evaluated by the model's malformed branch: it is `stream is not None and request_complete` and does not look at h11's writer (error_ignored_only_after_complete_request), so an application that has begun its response while the body is still arriving does not make a framing error in the rest of the body go unnoticed.  Tie: a deterministic corpus (reused connection + malformed chunk / truncated body / garbage head in every segmentation class and application timing; application-requested close followed by further requests) and thousands of generated pipelines (1-6 requests; content-length, chunked, HEAD, Expect, HTTP/1.0, close, malformed / aborted messages at any position, application-requested close; every segmentation class; applications answering before/while/after/never reading the body - including streaming applications that BEGIN the response early and finish it when the body has ended or they are told http.disconnect, with the part of the body that goes wrong arriving in a later read - crashing at every point) driven through the real H11Protocol with taps on h11.Connection and compared with the model after every op (outputs, h11 our/their state, reader parked?, current stream, request counter); end-to-end on both workers with an independent client parser.",
     "level_note": "Trusted: Lean kernel; model HC/Proto/H11.lean + stream models; H11M is a transcription of h11/_state.py with its two tables extracted from the installed library and is *assumed* for the theorems (sampled: our/their state compared after every op); h11's byte-level parser and serialiser are library behaviour (events are inputs, wire bytes parsed by an independent h11 client).  The announcement of close is required only when the cause precedes the head (an application that answers without reading the body cannot have been announced).",
     "rule": "pipelines x request kinds (incl. malformed / aborted) x segmentation x app timing x app-requested close x keep_alive_max; distinct = (pipeline length, request kinds, split class, app timing classes, max, app close); non-trivial = at least two requests, a connection-close cause or a malformed message",
     "trusted": ["h11 0.16 byte parser/serialiser", "asyncio/trio schedulers in the end-to-end layer"],
@@ -50,8 +50,15 @@ def gen_case(ctx: Ctx, idx: int) -> dict:
     if rng.random() < 0.15:
         k = rng.randrange(n)
         apps[k] = {**apps[k], "conn_close": rng.choice(CLOSE_VALUES), "conn_close_name": rng.choice(["connection", "Connection"])}
+    # applications that answer WHILE they read: the response has begun (head, perhaps a first piece of the body) when the rest of
+    # the request body arrives - or goes wrong
+    for k in range(n):
+        if rng.random() < 0.12 and reqs[k]["kind"] != "ws":
+            apps[k] = {**apps[k], "when": "echo", "early": rng.choice([1, 2]), "crash": None, "chunks": rng.choice([["a", "bc"], ["x" * 3000, "y"], ["ok"]])}
     data_len = sum(len(HS.request_bytes(r)) for r in reqs)
     split = rng.choice(["one", "one", "random", "random", "bytewise" if data_len < 600 else "random", "per_request"])
+    if any(r.get("bad_tail") for r in reqs) and rng.random() < 0.4:
+        split = "tail_apart"
     return {"family": "pipeline", "requests": reqs, "apps": apps, "split": split, "keep_alive_max": rng.choice([1, 2, 3, 1000, 1000]),
             "seed": rng.randrange(1 << 30), "eof": eof}
 
@@ -84,6 +91,22 @@ def corpus() -> List[dict]:
             for when in ("after_body", "eager"):
                 add([post, plain, plain], [{**ok, "when": when, "conn_close": value}, ok, ok], split)
         add([plain, post, plain], [ok, {**ok, "conn_close": "close", "conn_close_name": "Connection", "content_length": False}, ok], split)
+    # the body goes wrong AFTER the application has started (not finished) its response: the rest of the body arrives in a later read
+    # than the head; streaming applications (head / head + first piece early, the rest when the body has ended or the client is gone)
+    echo = {**ok, "when": "echo", "chunks": ["a", "bc"], "content_length": False}
+    post2 = {**post, "chunks": ["abc", "defg"]}
+    for early in (1, 2):
+        for first in (None, plain, post):
+            for base in (post, post2):
+                bad = HS.make_malformed(rng, base, "bad_chunk", early)
+                if first is None:
+                    add([bad], [{**echo, "early": early}], "tail_apart")
+                else:
+                    add([first, bad], [ok, {**echo, "early": early}], "tail_apart")
+        add([plain, HS.make_malformed(rng, {**post, "chunks": None, "body": "0123456789"}, "truncated", early)], [ok, {**echo, "early": early}], "per_request")
+        add([plain, post, HS.make_malformed(rng, post2, "bad_chunk", 2), plain], [ok, ok, {**echo, "early": early, "content_length": True}, ok], "tail_apart")
+    for split in ("bytewise", "random"):
+        add([plain, HS.make_malformed(rng, post2, "bad_chunk", 1)], [ok, {**echo, "early": 1}], split)
     return cases
 
 
@@ -91,6 +114,13 @@ def _reads(case: dict, rng) -> List[bytes]:
     blobs = [HS.request_bytes(r) for r in case["requests"]]
     if case["split"] == "per_request":
         return blobs
+    if case["split"] == "tail_apart":
+        # every request in one read, except that the part of a chunked body that goes wrong arrives in a read of its own
+        out: List[bytes] = []
+        for r, b in zip(case["requests"], blobs):
+            tail = (r.get("bad_tail") or "").encode("latin1")
+            out += [b[:len(b) - len(tail)], tail] if tail and len(tail) < len(b) else [b]
+        return out
     return HS.split_bytes(rng, b"".join(blobs), case["split"])
 
 
@@ -233,6 +263,11 @@ def monitor(ctx: Ctx, case: dict, obs: List[dict], policy=None) -> None:
         if consumed and reached and policy.sent_closed:
             if closed_at is None:
                 ctx.violation("malformed_not_closed", case, {"j": j}, msig)
+            elif policy.closed_by_server_first is False:
+                # `Closed` only followed the harness giving the connection up: the protocol had not asked to close by itself although
+                # every byte had been read and nothing but applications waiting to be told (http.disconnect) was left
+                ctx.violation("malformed_not_closed", case, {"j": j, "closed": "only after the connection was given up from outside",
+                                                              "app_started_response": any(a["when"] == "echo" for a in case["apps"])}, msig)
             if len(finals) <= j:
                 ctx.violation("malformed_no_response", case, {"j": j, "responses": [x["status"] for x in finals]}, msig)
             elif not _is_app_response(finals[j], case["apps"][j % len(case["apps"])]) and finals[j]["status"] >= 400 and not _announces_close(finals[j]):
@@ -251,16 +286,31 @@ def check_e2e(ctx: Ctx, cases: List[dict]) -> None:
             steps: List[list] = []
             if a["when"] in ("after_body", "mid"):
                 steps.append(["recv_body"] if a["when"] == "after_body" else ["recv"])
+            sent = 0
             for m in HS.app_messages(r, a):
                 if m is None:
                     if a["crash"] in ("before_start", "after_start", "after_first_chunk"):
                         steps.append(["raise"])
                     break
+                if a["when"] == "echo" and sent == a.get("early", 1):
+                    steps.append(["recv_body"])         # until the body has ended or http.disconnect says the client is gone
                 steps.append(["send", m])
+                sent += 1
             scripts.append(steps)
+        # a body that goes wrong in a read of its own arrives a little later than what precedes it (the application has run by then)
+        waits = set()
+        if case["split"] == "tail_apart":
+            pos = 0
+            for r in reqs:
+                tail = (r.get("bad_tail") or "")
+                pos += 2 if tail and len(tail) < len(HS.request_bytes(r)) else 1
+                if tail and len(tail) < len(HS.request_bytes(r)):
+                    waits.add(pos - 1)
         for worker in ("asyncio", "trio"):
             async def client(io):
-                for chunk in reads:
+                for i, chunk in enumerate(reads):
+                    if i in waits:
+                        await io.sleep(0.2)
                     await io.send(chunk)
                 await io.sleep(1.0)
                 if case["eof"]:
@@ -299,8 +349,14 @@ def check_e2e(ctx: Ctx, cases: List[dict]) -> None:
                 if in_body and len(res["apps"]) > j:
                     # request j's head was accepted, so its body went wrong under the server's eyes (at once for a bad chunk,
                     # at the client's EOF - 1 s after the last byte - for a body that ends early)
-                    if res["closed_at"] is None or (reqs[j]["kind"] == "bad_chunk" and res["closed_at"] >= 1000):
+                    if res["closed_at"] is None or (reqs[j]["kind"] == "bad_chunk" and res["closed_at"] >= 1000 + 200 * len(waits)):
                         ctx.violation("malformed_not_closed", wcase, {"j": j, "closed_at": res["closed_at"]}, msig)
+                    # ... and the application that was reading that body is told (http.disconnect) or has finished: it is not left
+                    # waiting for body bytes that can never come
+                    aj = res["apps"][j]
+                    if aj["exit"] is None and not any(m[1] == "http.disconnect" for m in aj["recv"]) and case["apps"][j % len(case["apps"])]["when"] in ("after_body", "echo"):
+                        ctx.violation("malformed_app_left_waiting", wcase, {"j": j, "recv": [m[1] for m in aj["recv"]][-4:], "sent": [x[1] for x in aj["send"]],
+                                                                            "closed_at": res["closed_at"]}, msig)
                     # the server owes the 400 itself unless the application had begun its own response (cut short by the close:
                     # on trio possibly before its first byte was written; hypercorn sends only Closed once h11's writer left SEND_RESPONSE)
                     # or had already finished (its 500 / its response is what the close cuts)
@@ -343,7 +399,10 @@ def run(ctx: Ctx) -> None:
     ctx.count("corpus.sessions", len(fixed))
     check_direct(ctx, fixed + cases)
     e2e_fixed = [c for c in fixed if c["split"] in ("per_request", "one")]
-    check_e2e(ctx, e2e_fixed[: ctx.budget(24, 200)] + cases[: ctx.budget(60, 900)])
+    e2e_fixed = e2e_fixed[: ctx.budget(24, 200)]
+    e2e_started = [c for c in fixed if any(a["when"] == "echo" for a in c["apps"]) and c["split"] in ("tail_apart", "per_request")
+                   and not any(c is d for d in e2e_fixed)]
+    check_e2e(ctx, e2e_fixed + e2e_started[: ctx.budget(10, 40)] + cases[: ctx.budget(60, 900)])
 
 
 def replay(ctx: Ctx, case: dict) -> None:
